@@ -113,6 +113,49 @@ def gen_stock(rng):
     return rng.choice([0.0, 0.0, logu(rng, 1e-3, 1e9), logu(rng, 1.0, 1e6)])
 
 
+
+# structured ratios: a pow/exp of a RATIO of two parameters is exercised on exact integers (around the binary64
+# exponent / mantissa limits 52, 53, 63, 64, 65, 1023, 1024, 1074, 1075), their reciprocals, exact powers of two,
+# exactly 1, and very large / very small ratios -- not only on ratios of two independent continuous draws
+RATIO_INTS = [1, 2, 3, 10, 52, 53, 63, 64, 65, 96, 128, 1023, 1024, 1074, 1075, 2000]
+ROUND_DT = [1.0, 60.0, 3600.0, 86400.0]
+
+
+def structured_ratio(rng, hi=None):
+    kind = rng.choice(['int', 'int', 'recip', 'pow2', 'one', 'huge', 'tiny'])
+    if kind == 'int':
+        r = float(rng.choice(RATIO_INTS))
+    elif kind == 'recip':
+        r = 1.0 / rng.choice(RATIO_INTS)
+    elif kind == 'pow2':
+        r = 2.0 ** rng.choice([-40, -11, -10, -6, -1, 1, 5, 6, 7, 10, 11, 20])
+    elif kind == 'one':
+        r = 1.0
+    elif kind == 'huge':
+        r = rng.choice([86400.0 / 1.5, 1e5, 1e7, 1e9, float(rng.randint(2001, 10 ** 6))])
+    else:
+        r = rng.choice([1e-5, 1e-7, 1.0 / (100 * 365.25 * 86400), 1e-12])
+    if hi is not None and r > hi:
+        r = float(rng.choice([x for x in RATIO_INTS if x <= hi]))
+    return r
+
+
+def structured_step_and_constant(rng):
+    """(DeltaT, time constant) with DeltaT / constant a structured ratio; exact whenever binary64 allows:
+    round or arbitrary DeltaT with constant = DeltaT / r when that division is exact, otherwise a binary-friendly
+    constant and DeltaT = r * constant"""
+    r = structured_ratio(rng)
+    dt = rng.choice(ROUND_DT + ROUND_DT + [float(rng.randint(1, 86400)), rng.uniform(1, 86400)])
+    c = dt / r
+    if c > 0 and not math.isinf(c) and dt / c == r:
+        return dt, c
+    c = rng.choice([0.25, 0.5, 1.0, 3.0, 7.0, 45.0])
+    dt2 = r * c
+    if 1.0 <= dt2 <= 86400.0 and dt2 / c == r:
+        return dt2, c
+    return dt, dt / r        # the nearest binary64 ratio
+
+
 class Case:
     def __init__(self, model, params, states, inputs, dt, **meta):
         self.model, self.params, self.states, self.inputs, self.dt = model, params, states, inputs, dt
@@ -140,6 +183,10 @@ def gen_decay(rng, quick):
     dt = gen_dt(rng); n = gen_n(rng, quick)
     q, v, reg = gen_hydro(rng, n, dt)
     half = rng.choice([0.0, 0.0, -1.0, dt, logu(rng, 10, 1e8), logu(rng, 1e3, 1e7)])
+    if rng.random() < 0.25:
+        dt, half = structured_step_and_constant(rng)        # DeltaT / halfLife from the structured set
+        q, v, reg = gen_hydro(rng, n, dt)
+        reg = 'structured-ratio/' + reg
     inflow = [x * rng.uniform(0.5, 1.5) for x in q]
     return Case('ConstituentDecay', [rng.uniform(0, 1), half, dt], [gen_stock(rng)],
                 [gen_load(rng, n), gen_load(rng, n), inflow, q, v], dt, regime=reg)
@@ -172,6 +219,15 @@ def gen_fine(rng, quick, lowbank=None):
     if bff > 1e-8 and n and rng.random() < 0.35:
         # straddle bank-full: below, exactly at, above
         q = [rng.choice([bff * rng.uniform(0, 1), bff, bff * rng.uniform(1, 30), x]) for x in q]
+    if bff > 1e-8 and n and rng.random() < 0.25:
+        # flood-plain exponent (fineSedSettVelocityFlood * floodPlainArea) / (outflow - bankFullFlow) a structured ratio:
+        # bank-full flow and flood flow exact powers of two, so the subtraction and the ratio are exact
+        bff = p[0] = 2.0 ** rng.choice([0, 1, 3, 6])
+        qf = 2.0 ** rng.choice([-4, -1, 0, 2, 5])
+        p[2] = 1.0
+        p[1] = structured_ratio(rng) * qf
+        q = [rng.choice([bff + qf, bff + qf, bff, bff / 2, bff + 2 * qf]) for _ in range(n)]
+        reg = 'structured-ratio/' + reg
     hi = rng.choice([1e-2, 10, 1e4, 1e6])
     chan = rng.choice([0.0, 0.0, logu(rng, 1, 1e10), logu(rng, 1e3, 1e8), -rng.uniform(0, 1)])
     if bff <= 1e-8:
@@ -218,6 +274,15 @@ def gen_trapping(rng, quick):
     p = [dt, logu(rng, 1e4, 1e10), length, rng.choice([112.0, rng.uniform(50, 150)]),
          rng.choice([800.0, rng.uniform(100, 2000)]), rng.choice([3.28, 1.0, rng.uniform(0.5, 10)]),
          rng.choice([-0.2, -0.2, -rng.uniform(0.05, 1.0), rng.uniform(0.05, 0.5)])]
+    if rng.random() < 0.25:
+        # sedimentation index capacity^2 / (factor * length * inflow^2) an exact structured ratio, integer / half-integer powers
+        p[5] = 1.0; p[2] = 4.0
+        p[6] = rng.choice([-1.0, -2.0, -0.5, 0.5, 1.0, 2.0, -0.25, -0.2])
+        qs = [2.0 ** rng.choice([-3, 0, 1, 4, 7]) for _ in range(n)]
+        r = structured_ratio(rng)
+        p[1] = math.sqrt(r * 4.0) * (qs[0] if qs else 1.0)      # index = r at the first step (exactly when sqrt is exact)
+        inflow = qs
+        reg = 'structured-ratio/' + reg
     return Case('StorageParticulateTrapping', p, [gen_stock(rng)], [gen_load(rng, n), inflow, q, v], dt, regime=reg)
 
 
@@ -246,6 +311,9 @@ def gen_dissolved(rng, quick, decay=False):
     q, v, reg = gen_hydro(rng, n, dt)
     do = rng.choice([0.5, 1.0, 0.7]) if decay else rng.choice([0.0, 0.0, 0.49, 0.25])
     p = [dt, do, rng.uniform(1, 10), logu(rng, 1e-2, 1e3), rng.choice([0.0, -1.0, rng.uniform(0, 10)])]
+    if decay and rng.random() < 0.25:
+        p[4] = 5.0 * structured_ratio(rng)                   # medianFloodResidenceTime / 5 from the structured set
+        reg = 'structured-ratio/' + reg
     return Case('StorageDissolvedDecay', p, [gen_stock(rng)], [gen_load(rng, n), [x * 1.1 for x in q], q, v], dt,
                 regime=reg, decay=decay)
 
@@ -256,6 +324,17 @@ def gen_dnd(rng, quick, decay=False):
     do = rng.choice([0.5, 1.0]) if decay else rng.choice([0.0, 0.0, 0.49])
     p = [do, rng.choice([0.0, logu(rng, 1, 1e6)]), rng.uniform(0.5, 10), logu(rng, 1, 200), logu(rng, 100, 1e5),
          rng.choice([0.0, logu(rng, 1e-6, 10)]), dt]
+    if decay and rng.random() < 0.25:
+        # 86400 / durationInSeconds and uptakeVelocity / waterDepth from the structured set (the depth is the link
+        # height whenever the reach is full enough)
+        dt, _ = structured_step_and_constant(rng)
+        p[6] = dt
+        p[2] = rng.choice([0.5, 1.0, 2.0, 4.0])
+        p[5] = structured_ratio(rng) * p[2]
+        q, v, reg = gen_hydro(rng, n, dt, regime=rng.choice(['steady', 'storm', 'pond', 'intermittent']))
+        reg = 'structured-ratio/' + reg
+        return Case('InstreamDissolvedNutrientDecay', p, [gen_stock(rng)],
+                    [gen_load(rng, n), gen_load(rng, n), v, q, [rng.uniform(0, 1) for _ in range(n)]], dt, regime=reg, decay=decay)
     return Case('InstreamDissolvedNutrientDecay', p, [gen_stock(rng)],
                 [gen_load(rng, n), gen_load(rng, n), v, q, [rng.uniform(0, 1) for _ in range(n)]], dt, regime=reg, decay=decay)
 
@@ -761,6 +840,11 @@ def main():
                      'zero-storage river) x time steps in [1,86400] x random initial stored masses x parameters over their documented / '
                      'physical ranges incl. both sides of every branch (bank-full 0 / >0 / outflow below, at, above bank-full; deposition, '
                      'remobilisation, neither; half-life on/off; deposition signal >=0 / <0; trapping 0, partial, 100 %; decay disabled); '
+                     'a quarter of the cases of every kernel with a pow/exp of a RATIO of two parameters (DeltaT/halfLife, 86400/durationInSeconds '
+                     'and uptakeVelocity/depth, medianFloodResidenceTime/5, settling area / flood flow, the sedimentation index) draw that ratio '
+                     'from a structured set -- exact integers 1,2,3,10,52,53,63,64,65,96,128,1023,1024,1074,1075,2000 and their reciprocals, exact '
+                     'powers of two, exactly 1, very large and very small ratios -- with round (1, 60, 3600, 86400) and arbitrary time steps '
+                     '(regime prefix structured-ratio/); '
                      'each case is run through sim.Catalog and through the extracted Coq kernel (bit-exact, or rtol 1e-9 where pow/exp occur) '
                      'and the implementation is re-run on every prefix to observe the state after each step; every case is also '
                      'run into an output array pre-filled with a sentinel (finite, NaN) and as the second run into the output array of a '
